@@ -435,6 +435,11 @@ impl Response {
                 let mut transfer_encodings =
                     self.headers.header_tokens("Transfer-Encoding");
                 transfer_encodings.pop();
+
+                // Empty list elements carry no coding (RFC 7230 section 7);
+                // writing them back would leave a dangling separator in
+                // the header value.
+                transfer_encodings.retain(|coding| !coding.is_empty());
                 if transfer_encodings.is_empty() {
                     self.headers.remove_header("Transfer-Encoding");
                 } else {
